@@ -163,6 +163,9 @@ DEVIATIONS = (
     'optional-around-repetition-dropped',  # [ {e} ], [ s%{e} ], [ [e] ] parse as the inner expression, so a
                                         # repetition that fails (after a cut) makes the optional fail
     'pattern-first-group-only',         # a pattern with several groups yields its first group, not the tuple
+    'none-dropped-at-frame-start/undetermined',  # the same deviation where the vanishing item is one whose value the docs
+                                        # leave open (`@:~`, `@:!e`, `@:[&e]` ...): the engine gives it None, so it is
+                                        # dropped like any other None item.  Same finding class, named without the suffix.
     'open-list-spliced',                # a list that is the value of a multi-item group operand of a name /
                                         # override (and hence of a rule whose value is such an override) is
                                         # not closed: it is spliced when it is the first item of its scope and
@@ -364,7 +367,8 @@ class _Evaluator:
         self.dev = frozenset(deviations)
         self.group_cut_scope = group_cut_scope and 'cut-escapes-group' not in self.dev
         self.dev_nodef = 'names-undefined-unless-sequence' in self.dev
-        self.dev_none = 'none-dropped-at-frame-start' in self.dev
+        self.dev_none_u = 'none-dropped-at-frame-start/undetermined' in self.dev
+        self.dev_none = 'none-dropped-at-frame-start' in self.dev or self.dev_none_u
         self.dev_cutlost = 'cut-lost-in-later-iteration' in self.dev
         self.dev_open = 'open-list-spliced' in self.dev
         self.dev_optdrop = 'optional-around-repetition-dropped' in self.dev
@@ -509,7 +513,7 @@ class _Evaluator:
                 if d:
                     binds = [d, *binds]
                 if self.dev_none:
-                    items = _strip(items)
+                    items = _strip(items, self.dev_none_u)
                 if self.dev_open:
                     items = _splice(items)
                 return p, items, binds, _NOCUT
@@ -574,7 +578,7 @@ class _Evaluator:
         if d:
             b = [d, *b]
         if self.dev_none:
-            i = _strip(i)
+            i = _strip(i, self.dev_none_u)
         if self.dev_open:
             i = _splice(i)
         return p, shape(i), b, c
@@ -801,7 +805,7 @@ class _Evaluator:
         if d:
             binds = [d, *binds]
         if self.dev_none:
-            items = _strip(items)
+            items = _strip(items, self.dev_none_u)
         if self.dev_open:
             items = _splice(items)
         value = self.rule_value(body, items, binds)
